@@ -32,7 +32,53 @@ def coef(rng, stream):
     return Fraction(rng.choice([-7, -5, -3, -2, -1, 1, 2, 3, 5, 7]), rng.choice(DENS))
 
 
+def _unf64(t):
+    import struct
+    return struct.unpack("<d", struct.pack("<Q", t["f"]))[0]
+
+
+def _imul(a, b):
+    ps = [a[0] * b[0], a[0] * b[1], a[1] * b[0], a[1] * b[1]]
+    return (min(ps), max(ps))
+
+
+def _ipow(a, n):
+    if n % 2 == 0 and a[0] < 0 < a[1]:
+        return (Fraction(0), max(a[0] ** n, a[1] ** n))
+    ps = [a[0] ** n, a[1] ** n]
+    return (min(ps), max(ps))
+
+
+def exact_interval_ends(mons, box):
+    """end points of the interval of f over the box in exact rationals, computed both with naive products and with
+    powers for repeated ids (whichever the SDK does): used only to keep the rational stream away from a decision that
+    hinges on an end point being exactly 0, where the nearest-f64 coefficients decide differently than the fractions"""
+    ends = []
+    for powers in (False, True):
+        lo = hi = Fraction(0)
+        for m, c in mons:
+            cur = (Fraction(1), Fraction(1))
+            if powers:
+                for i in sorted(set(m)):
+                    cur = _imul(cur, _ipow(box[i], m.count(i)))
+            else:
+                for i in m:
+                    cur = _imul(cur, box[i])
+            t = _imul((c, c), cur)
+            lo += t[0]
+            hi += t[1]
+        ends += [lo, hi]
+    return ends
+
+
 def slack_case(rng, stream):
+    while True:
+        out = _slack_case(rng, stream)
+        if stream != "rational" or out[4]:
+            return out[:4]
+
+
+def _slack_case(rng, stream):
     nv = rng.randint(1, 3)
     ids = rng.sample(range(0, 9), nv)
     dvs = []
@@ -50,6 +96,11 @@ def slack_case(rng, stream):
     if rng.random() < 0.8:
         c0 = coef(rng, stream) * rng.choice([1, 2, 3, 6])
         mons[()] = c0
+    box = {}
+    for d in dvs:
+        b = d[2][0] if d[2] else None
+        box[d[0]] = (Fraction(0), Fraction(1)) if b is None else (Fraction(_unf64(b[0])), Fraction(_unf64(b[1])))
+    well_conditioned = all(e != 0 for e in exact_interval_ends(sorted(mons.items()), box))
     ft, qt = render_rat(rng, sorted(mons.items()), ids)
     if ft[0] == "unset":
         ft, qt = ["const", f64(0.0)], ["const", 0]
@@ -78,7 +129,7 @@ def slack_case(rng, stream):
     if target != cid:
         tag = "unknown-id"
     q = [qt] if stream == "rational" else []
-    return inst, target, q, tag
+    return inst, target, q, tag, well_conditioned
 
 
 def gen(rng, tier):
